@@ -59,11 +59,23 @@ func c16Num(rng *Rng, h int) string {
 }
 
 func c16Str(rng *Rng, s string) string {
+	// control characters, quotes and backslashes always as \u escapes (ASCII strings only)
+	esc := func(t string) string {
+		var sb strings.Builder
+		for i := 0; i < len(t); i++ {
+			if t[i] < 0x20 || t[i] == '"' || t[i] == '\\' {
+				fmt.Fprintf(&sb, "\\u%04x", t[i])
+			} else {
+				sb.WriteByte(t[i])
+			}
+		}
+		return sb.String()
+	}
 	if s != "" && rng.Chance(8) {
 		// the first character as a \u escape
-		return fmt.Sprintf("\"\\u%04x%s\"", s[0], s[1:])
+		return fmt.Sprintf("\"\\u%04x%s\"", s[0], esc(s[1:]))
 	}
-	return "\"" + s + "\""
+	return "\"" + esc(s) + "\""
 }
 
 func c16Key(rng *Rng, k string) string {
@@ -238,7 +250,7 @@ cat "%[1]s/in/$(basename "$0").metrics" > "$METRICS_PATH" && : > "%[1]s/in/ran"
 // hooks, real metric storages); the world's storage is the operator's HookMetricStorage, so typed batches
 // (SendBatch) and hook executions (the real task handler) meet in one registry.
 func newC16OpWorld(r *Run, c *Case) (*c16World, error) {
-	w := &c16World{in: NewInterner(), c: c, owner: map[string]string{}, gfam: map[string]string{}, ushape: map[string]string{}}
+	w := &c16World{in: NewInterner(), c: c, owner: map[string]string{}, gfam: map[string]string{}, ushape: map[string]string{}, groups: c16Groups, vals: c16LabelVals}
 	dir := filepath.Join(r.Scratch, fmt.Sprintf("c16-%d", c.Idx))
 	for _, d := range []string{"hooks", "tmp", "in"} {
 		if err := os.MkdirAll(filepath.Join(dir, d), 0o755); err != nil {
